@@ -19,6 +19,16 @@ def bump_obs(deps):
     return frozenset(out)
 
 
+def value_key(v):
+    """a name for the value of a parameter that is passed along unchanged (used for must-not-contain facts)"""
+    if v.refs or v.locs or v.has_const or not v.deps:
+        return None
+    ps = [d for d in v.deps if isinstance(d, tuple) and len(d) == 2 and d[0] == "param"]
+    if len(ps) != 1 or len(v.deps) != 1:
+        return None
+    return ps[0]
+
+
 def strip_obs(deps):
     return frozenset(d for d in deps if not (isinstance(d, tuple) and len(d) == 3 and d[0] == "obs"))
 
@@ -595,11 +605,20 @@ class CallMixin:
                         kind = "reset-all"
                         stored = a0.extra[2]
             self._mut_store(target, kind, stored, node, refit=spec.get("refit", False))
+            # the arm list holds distinct labels (MAB._validate_mab_args, add_arm): after arms.remove(x) the value x
+            # is not in that list until something is added to it
+            if q == ".remove" and len(target.refs) == 1 and not target.locs and args:
+                k = value_key(args[0])
+                oid = next(iter(target.refs))
+                if k is not None and self.is_label_collection(target):
+                    self.mobj(oid).notin = self.obj(oid).notin | {k}
 
     def _mut_store(self, target: Val, kind, stored: Val, node, refit=False):
         targets = self.store_targets(target, "[*]")
         for oid in target.refs:
             o = self.mobj(oid)
+            if kind != "mutcall:remove":
+                o.notin = frozenset()
             if kind == "reset-all":
                 o.elem = stored
             elif stored is not EMPTY:
